@@ -69,6 +69,31 @@ func init() {
 			if !v.File.HasDep() && rapid.Bool().Draw(t, "c14dep") {
 				gen.SplitDep(t, v.File, v.Cfg.Types)
 			}
+			if rapid.IntRange(0, 2).Draw(t, "c14spellings") == 0 {
+				// name_overrides under both spellings of a lower_snake field (proto name and Go name) with different
+				// values: the Go spelling addresses nothing; whatever is made of it must not depend on map order
+				if v.Cfg.NameOverrides == nil {
+					v.Cfg.NameOverrides = map[string]string{}
+				}
+				n := 0
+				for _, oc := range model.Occurrences(v.File, v.Cfg.Types) {
+					nm := oc.Field.Name
+					if oc.Embed || n >= 3 || nm == "" || nm[0] < 'a' || nm[0] > 'z' || gen.GoName(nm) == nm {
+						continue
+					}
+					if _, taken := v.Cfg.NameOverrides[oc.TypeKey]; taken {
+						continue
+					}
+					n++
+					v.Cfg.NameOverrides[oc.TypeKey] = fmt.Sprintf("spl%d_proto", n)
+					v.Cfg.NameOverrides[oc.Message+"."+gen.GoName(nm)] = fmt.Sprintf("spl%d_go", n)
+				}
+			}
+			if rapid.IntRange(0, 4).Draw(t, "c14failing") == 0 {
+				// no time_type / duration_type: every selected type that reaches a Timestamp or Duration is skipped
+				// with a warning; what is written about several skipped types must be reproducible too
+				v.Cfg.TimeType, v.Cfg.DurationType = nil, nil
+			}
 			if rapid.Bool().Draw(t, "c14decoyovr") {
 				// import_path_overrides keys that are parents of packages in use (validators, plan modifiers, the
 				// framework itself) and disagree with each other: an exact-key lookup ignores them; whatever is made
@@ -636,15 +661,16 @@ func msgOrder(f *ir.File) []string {
 // ---------------------------------------------------------------- C18
 
 type c18Case struct {
-	Target           string `json:"target"`              // selected type below which the bad field is injected
-	Host             string `json:"host"`                // message that receives the bad field
-	Kind             string `json:"kind"`                // no_time_type | no_duration_type | no_duration_type_cast | map_key | group
-	Cast             string `json:"cast,omitempty"`      // no_duration_type_cast: time.Duration or the configured duration_custom_type
-	FlagAlso         string `json:"flag_also,omitempty"` // the exclusion key is also listed in this flag list (flags of an excluded field mean nothing)
-	MapKey           string `json:"map_key"`             // for map_key
-	Card             string `json:"card"`                // cardinality of the bad field (time/duration)
-	Oneof            string `json:"oneof"`               // put the bad field into this oneof of the host ("" = none)
-	KeyForm          string `json:"key_form"`            // full | type : form of the exclude_fields entry
+	Target           string `json:"target"`                // selected type below which the bad field is injected
+	Host             string `json:"host"`                  // message that receives the bad field
+	Kind             string `json:"kind"`                  // no_time_type | no_duration_type | no_duration_type_cast | map_key | group
+	Cast             string `json:"cast,omitempty"`        // no_duration_type_cast: time.Duration or the configured duration_custom_type
+	InjectSame       bool   `json:"inject_same,omitempty"` // injected_fields holds an attribute with the unmappable field's schema name at the host's path
+	FlagAlso         string `json:"flag_also,omitempty"`   // the exclusion key is also listed in this flag list (flags of an excluded field mean nothing)
+	MapKey           string `json:"map_key"`               // for map_key
+	Card             string `json:"card"`                  // cardinality of the bad field (time/duration)
+	Oneof            string `json:"oneof"`                 // put the bad field into this oneof of the host ("" = none)
+	KeyForm          string `json:"key_form"`              // full | type : form of the exclude_fields entry
 	Depth            int    `json:"depth"`
 	BehindCollection bool   `json:"behind_collection"`
 }
@@ -742,6 +768,7 @@ func init() {
 				}
 			}
 			c.KeyForm = rapid.SampledFrom([]string{"type", "full"}).Draw(t, "keyform")
+			c.InjectSame = rapid.IntRange(0, 3).Draw(t, "injectsame") == 0
 			c.FlagAlso = rapid.SampledFrom([]string{"", "", "", "required_fields", "computed_fields", "sensitive_fields"}).Draw(t, "flagalso")
 			setExtra(rp, "c18", c)
 			return rp
@@ -757,6 +784,32 @@ func init() {
 				return "", err
 			}
 			defer os.RemoveAll(dir)
+			if c.InjectSame {
+				// The pattern "exclude the time field and inject a hand-handled string attribute of the same name": an
+				// injected attribute called like the unmappable field, at one position of the host message (in every
+				// run of this case, so that the comparisons below stay like for like).
+				hostPath := ""
+				if ir.Has(v.Cfg.Types, c.Host) {
+					hostPath = c.Host
+				} else {
+					for _, oc := range model.Occurrences(v.File, v.Cfg.Types) {
+						if oc.Field.Kind == ir.KMessage && oc.Field.Type == c.Host && !oc.Embed && oc.FullKey != "" && oc.Field.CustomType == "" {
+							hostPath = oc.FullKey
+							break
+						}
+					}
+				}
+				if hostPath != "" {
+					vv := *v
+					vv.Cfg = ir.Clone(v.Cfg)
+					if vv.Cfg.InjectedFields == nil {
+						vv.Cfg.InjectedFields = map[string][]ir.InjectedField{}
+					}
+					vv.Cfg.InjectedFields[hostPath] = append(vv.Cfg.InjectedFields[hostPath], ir.InjectedField{Name: "zz_bad",
+						Type: "github.com/hashicorp/terraform-plugin-framework/types.StringType", Optional: true})
+					v = &vv
+				}
+			}
 			// the file with the unmappable field
 			bad := ir.Clone(v.File)
 			host := bad.Msg(c.Host)
